@@ -146,6 +146,23 @@ def build_trace(ctx, lib):
     return ctx.build_driver("drv_oncetrace", libs=[lib], extra=["-include", PRELUDE], opt="-O1")
 
 
+def gdesc(c):
+    return "enumerable_thread_specific growth window: %d threads, %d sequential first accesses, then line-ups of %s threads inside the table-array allocation, seed %d" % (
+        c[1], c[2], c[3] if c[3] else "1-8", c[0])
+
+
+def grow_oracle(c, toks):
+    if not toks or toks[0].startswith("CRASH") or toks[-1] == "HANG":
+        return ("ets-local-never-returns", gdesc(c) + ": a call of local() never returns (a probe finds no empty slot) or the run crashed")
+    d = {toks[i]: int(toks[i + 1]) for i in range(0, len(toks) - 1, 2)}
+    msg = {"SHARED": "two threads share an element", "MOVED": "a thread's element changed address / was created twice", "INITS": "initialiser calls != number of threads",
+           "ITER": "iteration does not visit exactly one element per thread", "SUM": "an update was lost"}
+    for k, m in msg.items():
+        if d.get(k):
+            return ("ets-" + k.lower(), "%s: %s (%d)" % (gdesc(c), m, d[k]))
+    return None
+
+
 def run(ctx):
     lib, err = ctx.build_lib("tbb")
     if err:
@@ -191,12 +208,44 @@ def run(ctx):
     oracle_tie(ctx, "ets", exe, ["ets"], ecases, ets_oracle, describe=edesc, bucket=lambda c: "ets T=%d" % c[1], timeout=600)
 
 
+    gcases = [[ctx.seed * 1000 + 300000 + i, rng.choice([5, 9, 9, 12, 17, 20, 33, 40]), rng.choice([0, 1, 2, 2, 3]), rng.choice([0, 0, 2, 3, 4, 5, 6, 7, 8])] for i in range(ctx.scale(60, 1500))]
+    gcases[:4] = [[ctx.seed * 1000 + 300000, 9, 2, 6], [ctx.seed * 1000 + 300001, 17, 2, 6], [ctx.seed * 1000 + 300002, 12, 1, 5], [ctx.seed * 1000 + 300003, 33, 3, 8]]
+    ctx.rules.append("ets-grow: an allocator holds every thread that allocates a table array (count incremented, root read, array not yet published) until K = 2-8 threads are inside, so K threads "
+                     "grow the table at once from a root that is 0-3 accesses old; then everybody accesses again (re-insertion at the top), late arrivals follow; 5-40 threads; predicate as for ets, "
+                     "every local() returns; white box: no table array is filled above one half")
+    rc, glines, err = ctx.run_driver(exe, ["etsgrow"], gcases, timeout=900)
+    gbad = 0
+    for i, c in enumerate(gcases):
+        if i >= len(glines):
+            break
+        ctx.count(("ets-grow", tuple(c)), True, "ets-grow T=%d K=%d" % (c[1], c[3]))
+        toks = glines[i].split()
+        v = grow_oracle(c, toks)
+        if v:
+            gbad += 1
+            ctx.add(Finding("violation", v[0], v[1], {"tie": "ets-grow", "case": c}))
+            break
+        if "DENSE" in toks and toks[toks.index("DENSE") + 1] != "0":
+            gbad += 1
+            ctx.add(Finding("broken", "broken:ets-density", gdesc(c) + ": a table array is filled above one half — the reason why every probe of table_lookup ends (an empty slot exists) no longer holds", {"tie": "ets-grow", "case": c}))
+        else:
+            ctx.traces_validated += 1
+    ctx.ties.append({"name": "ets-grow (oracle + white-box density)", "cases": len(gcases), "disagreements": gbad})
+
+
 def replay(ctx, rep):
     lib, err = ctx.build_lib("tbb")
     exe, err = ctx.build_driver("drv_once", libs=[lib], opt="-O1")
     if rep.get("tie") == "once-trace":
         texe, err = build_trace(ctx, lib)
         return trace_tie(ctx, texe, [rep["case"]])
+    if rep.get("tie") == "ets-grow":
+        rc, glines, err = ctx.run_driver(exe, ["etsgrow"], [rep["case"]], timeout=120)
+        print(glines)
+        v = grow_oracle(rep["case"], (glines or ["CRASH"])[0].split())
+        if v:
+            ctx.add(Finding("violation", v[0], v[1], {"tie": "ets-grow", "case": rep["case"]}))
+        return
     if rep.get("tie") == "ets":
         oracle_tie(ctx, "ets", exe, ["ets"], [rep["case"]], ets_oracle, describe=edesc)
     else:
